@@ -256,10 +256,22 @@ package storage
 
 //@ spec fileIs(f, s) = fileHas(f) && hdrblob(fileBlob(f)) && fileN(f) == len(s) && forall(k, 0, len(s), blobhdr(fileBlob(f), k) == s[k])
 
+// C10: what a process restarted on the surviving store finds. loadableAt(m): files 0..m present, all full but the last.
+//@ spec loadableAt(m) = m >= 0 && forall(f, 0, m, fileHas(f) && hdrblob(fileBlob(f)) && fileN(f) == 1000)
+//@      && fileHas(m) && hdrblob(fileBlob(m)) && 1 <= fileN(m) && fileN(m) <= 1000 && forall(f int, f > m ==> !fileHas(f))
+// oneBranch(r, m): every stored header is the header the chain held at that height before this operation
+//@ spec oneBranch(r, m) = forall(f, 0, m + 1, forall(k, 0, fileN(f), blobhdr(fileBlob(f), k) == old(Hdr(r, 1000*f + k))))
+
+// the newest file, if it exists, holds a non-empty prefix of the cached headers (B5)
+//@ spec InvNewest(r) = fileHas(q(r.height)) ==> hdrblob(fileBlob(q(r.height))) && 1 <= fileN(q(r.height)) && fileN(q(r.height)) <= len(r.lastHeaders)
+//@      && forall(k, 0, fileN(q(r.height)), blobhdr(fileBlob(q(r.height)), k) == r.lastHeaders[k])
+
 //@ func (*BlockRepository).save
 //@   serves C09 C10
 //@   opt nomonitor = 1
 //@   safety index nil
+//@   requires InvMem(repo) && InvFull(repo) && InvTop(repo) && InvNewest(repo)
+//@   assert crash_loadable at after store.Write : [C10] (sthas(bkey(q(repo.height))) ==> loadableAt(q(repo.height)))
 //@   ensures written: result == nil ==> fileIs(q(repo.height), repo.lastHeaders) && stsameexcept(bkey(q(repo.height)))
 //@   ensures failed: result != nil ==> stsame()
 //@   ensures frame: memSame(repo)
@@ -269,6 +281,7 @@ package storage
 //@ func (*BlockRepository).Save
 //@   serves C09 C10
 //@   atomic mutex
+//@   requires InvMem(repo) && InvFull(repo) && InvTop(repo) && InvNewest(repo)
 //@   ensures written: result == nil ==> fileIs(q(repo.height), repo.lastHeaders) && stsameexcept(bkey(q(repo.height)))
 //@   ensures failed: result != nil ==> stsame()
 //@   ensures frame: memSame(repo)
@@ -329,7 +342,7 @@ package storage
 //@   serves C09 C10 C02
 //@   atomic mutex
 //@   safety index nil
-//@   requires header != nil && InvMem(repo) && InvFull(repo)
+//@   requires header != nil && InvMem(repo) && InvFull(repo) && InvTop(repo) && InvNewest(repo)
 //@   ensures grows: result == nil ==> repo.height == old(repo.height) + 1 && Hdr(repo, repo.height) == *header
 //@   ensures keeps_cache: result == nil && old(len(repo.lastHeaders)) < 1000 ==> forall(i, 0, repo.height, Hdr(repo, i) == old(Hdr(repo, i)))
 //@   ensures keeps_rollover_old: result == nil && old(len(repo.lastHeaders)) == 1000 ==> stsameexcept(bkey(q(old(repo.height))))
@@ -339,7 +352,7 @@ package storage
 //@   ensures indexed: result == nil ==> has(repo.heights, BlockHashOf(*header)) && repo.heights[BlockHashOf(*header)] == repo.height && same(repo.heights)
 //@        && forall(x bitcoin.Hash32, x != BlockHashOf(*header) ==> has(repo.heights, x) == old(has(repo.heights, x)) && repo.heights[x] == old(repo.heights[x]))
 //@   ensures failed: result != nil ==> stsame() && memSame(repo)
-//@   ensures inv: InvMem(repo) && InvFull(repo)
+//@   ensures inv: InvMem(repo) && InvFull(repo) && InvTop(repo) && InvNewest(repo)
 
 // no block file beyond the newest one (B6)
 //@ spec InvTop(r) = forall(f int, f > q(r.height) ==> !fileHas(f))
@@ -351,7 +364,9 @@ package storage
 //@   serves C09 C10 C02
 //@   atomic mutex
 //@   safety index nil
-//@   requires InvMem(repo) && InvFull(repo) && InvTop(repo)
+//@   requires InvMem(repo) && InvFull(repo) && InvTop(repo) && InvNewest(repo)
+//@   assert crash_loadable_rm at after store.Remove : [C10] loadableAt(q(revertedHeight + 1000) - 1) || sthas(bkey(q(revertedHeight + 1000)))
+//@   assert crash_loadable_wr at after store.Write : [C10] loadableAt(q(height))
 //@   ensures rejected: height > old(repo.height) || height < 0 ==> result != nil && stsame() && memSame(repo) && heightsSame(repo)
 //@   ensures failed_memory_unchanged: result != nil ==> memSame(repo) && heightsSame(repo)
 //@   ensures failed_store_consistent: result != nil ==> InvFull(repo) && InvTop(repo)
